@@ -591,6 +591,9 @@ def _run_sym(ctx, g, ks, sc, sm, seen):
             else:
                 want = _f(_walk(hist['$final'][parts[0]], parts[1:]))
         except Exception as e:
+            if k.name in pykern.LAST_STALE:
+                ctx.count('source_tie_stale_unobservable:' + k.name)
+                continue
             ctx.diverge(f'kernel {k.name}', {'kernel': k.name}, f'target {k.target} not observable: {type(e).__name__}: {e}')
             continue
         try:
@@ -602,6 +605,9 @@ def _run_sym(ctx, g, ks, sc, sm, seen):
             for text, name in k.cond_inputs.items():
                 bs.append(bool(_resolve(ns, text)))
         except Exception as e:
+            if k.name in pykern.LAST_STALE:
+                ctx.count('source_tie_stale_unobservable:' + k.name)
+                continue
             ctx.diverge(f'kernel {k.name}', {'kernel': k.name}, f'inputs not observable: {type(e).__name__}: {e}')
             continue
         got = ctx.driver.outs([{'op': 'kern.eval', 'name': k.name, 'attrs': attrs, 'pts': [{'x': xs, 'b': bs}]}])[0]
@@ -739,6 +745,7 @@ def check_loops(ctx, files: set[str] | None = None, flights: int = 6) -> dict:
     specs = [k for k in pykern.SYM_KERNELS if k.loop and (files is None or k.file in files)]
     summary = ctx.extra.setdefault('kernels', {})
     sm = summary.setdefault('loop_bodies', {'kernels': 0, 'points': 0, 'mismatches': 0, 'untranslatable': {}})
+    sm['stale'] = sorted(n for n in pykern.LAST_STALE if any(k.name == n for k in specs))
     for k in specs:
         if k.name in errors:
             sm['untranslatable'][k.name] = errors[k.name]
@@ -823,6 +830,12 @@ def _compare_iteration(ctx, g, ks, before, after, sm, seen):
             else:
                 want = float(after['$locals'][tgt])
         except Exception as e:  # noqa: BLE001
+            if k.name in pykern.LAST_STALE:
+                # the kernel is served from its last good translation because the source left the translatable subset (e.g. a
+                # local was renamed): its observation points are names of the OLD source. A limitation of the translator is not
+                # evidence about the code (DESIGN 9.6): recorded, no alarm; the kernels of the observable state still run.
+                ctx.count('source_tie_stale_unobservable:' + k.name)
+                continue
             ctx.diverge(f'kernel {k.name}', {'kernel': k.name}, f'loop state not observable: {type(e).__name__}: {e}')
             continue
         _LOOP_QUEUE.append((k, {'op': 'kern.eval', 'name': k.name, 'attrs': attrs, 'pts': [{'x': xs, 'b': []}]}, want, attrs, xs))
